@@ -64,7 +64,9 @@ struct Foreign { int x; };
 
 static void fillPattern(void* p, size_t n, int slot) { unsigned char* c = (unsigned char*)p; for (size_t i = 0; i < n; i++) c[i] = (unsigned char)(0x41 + (slot + (int)i) % 26); }
 
+static uint64_t g_fired[K_COUNT];
 static void execOp(const Group& T, const Op& o) {
+    g_fired[o.kind]++;
     const char* file = o.s.empty() ? T.sarg(2) : o.s.c_str();
     size_t line = (size_t)o.d;
     const char* text = o.s2.c_str();
@@ -373,6 +375,8 @@ void executeRun(const Desc& d, Obs& o) {
     for (size_t i = 0; i < plugins.size(); i++) { plugins[i]->~SimPlugin(); ::free(plugins[i]); }
     for (size_t i = 0; i < owned.size(); i++) { owned[i]->~UtestShell(); ::free(owned[i]); }
 
+    static const char* const firedNames[K_COUNT] = { 0, 0, 0, "fail_check_cpp", "fail_check_c_longjmp", "throw_std", "throw_foreign", 0, 0, 0, 0, 0, 0, 0, 0, 0 };
+    for (int k = 0; k < K_COUNT; k++) { if (firedNames[k] && g_fired[k]) fired(firedNames[k], g_fired[k]); g_fired[k] = 0; }
     SimIO& io = simIO();
     o.console = io.console; o.writesAfterClose = io.writesAfterClose; o.badHandle = io.badHandle;
     for (size_t i = 0; i < io.files.size(); i++) o.files.push_back(*io.files[i]);
